@@ -28,7 +28,7 @@ def _owners():
         for op in ('ed_keypair', 'ed_sign', 'ed_sign_ext', 'ed_ext_pub', 'ed_exchange'):
             _OWN[op] = c13.check
         _OWN['ed_verify'] = c14.check
-        for op in ('fe', 'sc_reduce', 'sc_canon', 'sc_rt', 'ge_base', 'ge_dsm', 'ge_chain', 'ge_decode', 'ge_table', 'ge_select'):
+        for op in ('fe', 'consts', 'sc_reduce', 'sc_canon', 'sc_rt', 'ge_base', 'ge_dsm', 'ge_chain', 'ge_decode', 'ge_table', 'ge_select'):
             _OWN[op] = c15.check
         for op in ('ct_u8_table', 'ct_u64', 'ct_arr', 'ct_slice', 'ct_u64arr', 'ct_u64slice', 'choice', 'ctopt', 'swap64', 'swap32', 'set64', 'set32', 'macres_eq', 'tag_eq'):
             _OWN[op] = c18.check
